@@ -356,3 +356,81 @@ pub fn cmd_serve(st: &mut crate::State, arg: &str) -> String {
         _ => "BAD-SERVE-CMD".into(),
     }
 }
+
+// ---------------------------------------------------------------- Responder driven directly
+//   respond <Google|RfcDraft13> <seedhex> <nsock> <batch>|<batch>|...
+//   batch = item;item;...   item = <dest>:<noncehex>:<requesthex|->
+//   dest  = index of a harness client socket, or F (127.0.0.1:0, send_to fails with EINVAL), or
+//           B (255.255.255.255:9, send_to fails with EACCES: SO_BROADCAST is not set)
+// One Responder object (reset between batches, as Server does), an AggregatedStats recorder.
+// Output per batch: the recorder's totals after the batch and the datagram lengths each socket received.
+pub fn cmd_respond(arg: &str) -> String {
+    use roughenough::key::LongTermKey;
+    use roughenough::responder::Responder;
+    use roughenough::stats::{AggregatedStats, ServerStats};
+    use roughenough::version::Version;
+    use std::net::SocketAddr;
+    let p: Vec<String> = arg.trim().splitn(4, ' ').map(|s| s.to_string()).collect();
+    if p.len() < 4 {
+        return "BAD-RESPOND".into();
+    }
+    let (tx, rx) = channel::<String>();
+    let h = std::thread::Builder::new()
+        .name("worker-0".to_string())
+        .spawn(move || {
+            let r = catch_unwind(AssertUnwindSafe(|| {
+                let ver = if p[0] == "Google" { Version::Google } else { Version::RfcDraft13 };
+                let nsock: usize = p[2].parse().unwrap();
+                let mut cfg = MemoryConfig::new(0);
+                cfg.seed = unhex(&p[1]);
+                let mut ltk = LongTermKey::new(&cfg.seed);
+                let mut resp = Responder::new(ver, &cfg, &mut ltk);
+                let std_sock = StdUdp::bind("127.0.0.1:0").unwrap();
+                std_sock.set_nonblocking(true).unwrap();
+                let mut sock = mio::net::UdpSocket::from_socket(std_sock).unwrap();
+                let clients: Vec<StdUdp> = (0..nsock)
+                    .map(|_| {
+                        let s = StdUdp::bind("127.0.0.1:0").unwrap();
+                        s.set_nonblocking(true).unwrap();
+                        s
+                    })
+                    .collect();
+                let mut stats: Box<dyn ServerStats> = Box::new(AggregatedStats::new());
+                let mut out = Vec::new();
+                for batch in p[3].split('|') {
+                    resp.reset();
+                    for item in batch.split(';').filter(|s| !s.is_empty()) {
+                        let f: Vec<&str> = item.split(':').collect();
+                        let addr: SocketAddr = match f[0] {
+                            "F" => "127.0.0.1:0".parse().unwrap(),
+                            "B" => "255.255.255.255:9".parse().unwrap(),
+                            k => clients[k.parse::<usize>().unwrap()].local_addr().unwrap(),
+                        };
+                        let nonce = unhex(f[1]);
+                        if f[2] == "-" {
+                            resp.add_classic_request(nonce, addr);
+                        } else {
+                            resp.add_ietf_request(&unhex(f[2]), nonce, addr);
+                        }
+                    }
+                    resp.send_responses(&mut sock, &mut stats);
+                    let mut got = Vec::new();
+                    let mut buf = [0u8; 65536];
+                    for (i, c) in clients.iter().enumerate() {
+                        while let Ok((n, _)) = c.recv_from(&mut buf) {
+                            got.push(format!("{}:{}", i, n));
+                        }
+                    }
+                    out.push(format!("[{} R={}]", stats_line(stats.as_ref()), got.join(",")));
+                }
+                out.join(" ")
+            }));
+            let _ = tx.send(match r {
+                Ok(s) => format!("OK {}", s),
+                Err(_) => "PANIC".to_string(),
+            });
+        })
+        .unwrap();
+    let _ = h.join();
+    rx.recv().unwrap_or_else(|_| "DEAD".into())
+}
